@@ -227,7 +227,7 @@ pub fn cases(prop: &str, tier: Tier, seed: u64) -> Vec<CaseDesc> {
             }
             out.extend(with_scenario(crate::census::op_census_specs(), "rt:emit,gc,probe;cfg=90"));
             // function entries with three- and four-byte size prefixes: bodies beyond 2^14, 2^20 and 2^21 bytes
-            for s in ["lebb:2:6:20000", "lebb:1:4:1100000"] {
+            for s in ["lebb:2:6:20000", "lebb:1:4:1100000", "leb:16383:8:1", "leb:16384:8:1", "leb:16385:8:1"] {
                 out.push(CaseDesc { spec: s.to_string(), scenario: "rt:emit,gc,probe;cfg=90".to_string() });
             }
             if !q {
